@@ -186,6 +186,58 @@ fn with_class_import(ms: &ModuleSet) -> Option<ModuleSet> {
     Some(out)
 }
 
+/// for the checks of other properties whose statement covers the TypeScript bindings too
+/// (C05: extensibility, C12: imports): the failure of one of the named clauses, if any, that is
+/// not attributed to a listed finding
+/// the import clause alone (C12): every symbol of every IMPORTS clause that has a TypeScript
+/// counterpart is aliased from the right namespace — for the input as it is and with an
+/// object class put into one IMPORTS list
+pub fn ts_import_failure(ms: &ModuleSet) -> Option<String> {
+    let one = |ms: &ModuleSet| -> Option<String> {
+        let Outcome::Ok(out) = comp::compile_ts(&[print(ms)]) else { return None };
+        let nss = tsparse::parse(&out.generated).ok()?;
+        for m in &ms.modules {
+            let want = mangle(&m.name);
+            let found: Vec<&Namespace> = nss.iter().filter(|n| n.name == want).collect();
+            if found.len() != 1 {
+                continue;
+            }
+            for im in &m.imports {
+                for s in &im.symbols {
+                    if s.chars().all(|c| c.is_ascii_uppercase() || c == '-') {
+                        continue;
+                    }
+                    let ok = found[0].imports.iter().any(|(a, from, n)| *a == mangle(s) && *from == mangle(&im.from) && *n == mangle(s));
+                    if !ok {
+                        return Some(format!("module {}: no `import {} = {}.{}` (IMPORTS {} FROM {})\n{}", m.name, mangle(s), mangle(&im.from), mangle(s), im.symbols.join(", "), im.from, print(ms)));
+                    }
+                }
+            }
+        }
+        None
+    };
+    one(ms).or_else(|| with_class_import(ms).and_then(|m2| one(&m2)))
+}
+
+pub fn ts_clause_failure(ms: &ModuleSet, clauses: &[&str]) -> Option<(String, String)> {
+    let hit = |v: Verdict| -> Option<(String, String)> {
+        match v {
+            Verdict::Fail { key, finding: None, what, .. } if clauses.iter().any(|c| key == *c || key.ends_with(&format!(":{c}"))) => Some((key, what)),
+            _ => None,
+        }
+    };
+    // the plain input and the one with an object class in an IMPORTS list are judged
+    // independently: a failure of another clause in one must not hide this clause in the other
+    if let Some(h) = hit(eval_one(ms)) {
+        return Some(h);
+    }
+    let ms2 = with_class_import(ms)?;
+    match eval_one(&ms2) {
+        Verdict::Fail { key, finding, what, observed, nontrivial } => hit(Verdict::Fail { key: format!("class-in-imports:{key}"), finding, what: format!("with an object class in the IMPORTS list: {what}\n{}", print(&ms2)), observed, nontrivial }),
+        _ => None,
+    }
+}
+
 pub fn eval(ms: &ModuleSet) -> Verdict {
     let v = eval_one(ms);
     if !matches!(v, Verdict::Pass { .. }) {
@@ -201,8 +253,38 @@ pub fn eval(ms: &ModuleSet) -> Verdict {
     }
 }
 
+/// the same module text with a description comment behind every comma of every ENUMERATED
+/// item list (the TypeScript backend turns such a comment into a `//` comment behind the member)
+fn with_enumeral_comments(text: &str) -> String {
+    let mut out = String::with_capacity(text.len() + 64);
+    let mut rest = text;
+    while let Some(p) = rest.find("ENUMERATED {") {
+        let (head, tail) = rest.split_at(p + "ENUMERATED {".len());
+        out.push_str(head);
+        let end = tail.find('}').unwrap_or(tail.len());
+        out.push_str(&tail[..end].replace(", ", ", -- nothing is lit, or so they say\n "));
+        rest = &tail[end..];
+    }
+    out.push_str(rest);
+    out
+}
+
 fn eval_one(ms: &ModuleSet) -> Verdict {
     let text = print(ms);
+    let v = eval_text(ms, text.clone());
+    if !matches!(v, Verdict::Pass { .. }) {
+        return v;
+    }
+    let commented = with_enumeral_comments(&text);
+    if commented != text {
+        if let Verdict::Fail { key, finding, what, observed, nontrivial } = eval_text(ms, commented.clone()) {
+            return Verdict::Fail { key: format!("enumeral-comments:{key}"), finding, what: format!("with a description comment behind the enumerals: {what}\n{commented}"), observed, nontrivial };
+        }
+    }
+    v
+}
+
+fn eval_text(ms: &ModuleSet, text: String) -> Verdict {
     let out = match comp::compile_ts(&[text]) {
         Outcome::Ok(c) => c,
         Outcome::Err(_) => return Verdict::Skip("compile_err"),
